@@ -6,11 +6,13 @@ import (
 	"net/http"
 	"net/http/cookiejar"
 	"net/url"
+	"slices"
 	"sort"
 	"strings"
 	"time"
 
 	jose "github.com/go-jose/go-jose/v4"
+	"github.com/rs/cors"
 	"golang.org/x/oauth2"
 	"pgregory.net/rapid"
 
@@ -32,6 +34,13 @@ type Step struct {
 	Router string                       `json:"router,omitempty"`
 	EP     map[string]vkit.EndpointSpec `json:"ep,omitempty"`   // endpoints customised by this provider's own options
 	Bulk   bool                         `json:"bulk,omitempty"` // op.WithCustomEndpoints instead of the single-endpoint options
+	// prov and issuer_fn: how the issuer is derived (see issuers_test.go)
+	Iss      string   `json:"iss,omitempty"`      // "" static | host | fwd | fwdc
+	Hdrs     []string `json:"hdrs,omitempty"`     // fwdc: the header names handed to op.WithIssuerFromCustomHeaders, as the caller spells them
+	Path     string   `json:"path,omitempty"`     // issuer_fn: issuer path
+	Insecure bool     `json:"insecure,omitempty"` // issuer_fn: allowInsecure
+	Ctor     int      `json:"ctor,omitempty"`     // prov: 1 = through the wrapper constructor of the strategy (NewOpenIDProvider / NewDynamicOpenIDProvider / NewForwardedOpenIDProvider)
+	CORS     int      `json:"cors,omitempty"`     // prov: 0 default CORS policy, 1 caller-supplied *cors.Options, 2 CORS switched off (nil)
 	// client-side constructors
 	P      int `json:"p,omitempty"`      // provider the instance talks to (mod number of providers)
 	Client int `json:"client,omitempty"` // 0: the package default client; 1..2: caller-supplied client #n (shared by every instance that names it)
@@ -44,7 +53,7 @@ var stepKinds = []struct {
 	k string
 	w int
 }{
-	{"prov", 5}, {"rp_oidc", 4}, {"rp_oauth", 2}, {"rs", 2}, {"te", 2}, {"keyset", 3}, {"discover", 2},
+	{"prov", 6}, {"issuer_fn", 3}, {"rp_oidc", 4}, {"rp_oauth", 2}, {"rs", 2}, {"te", 2}, {"keyset", 3}, {"discover", 2},
 	{"endsession", 4}, {"revoke", 3}, {"userinfo", 2}, {"codeexchange", 2}, {"introspect", 1}, {"exchange", 1},
 	{"devicepoll", 2}, {"op_requests", 2},
 }
@@ -107,6 +116,13 @@ func genOrder(t *rapid.T) Case {
 				s.EP[name] = e
 			}
 			s.Bulk = s.Router == "provider" && rapid.IntRange(0, 3).Draw(t, "bulk") == 0
+			genIssuer(t, &s, true)
+			if rapid.IntRange(0, 3).Draw(t, "ctor") == 0 {
+				s.Ctor = 1
+			}
+			s.CORS = rapid.SampledFrom([]int{0, 0, 0, 1, 1, 2}).Draw(t, "cors")
+		case "issuer_fn":
+			genIssuer(t, &s, false)
 		case "rp_oidc", "rp_oauth", "rs", "te", "keyset", "discover":
 			s.P = rapid.IntRange(0, 3).Draw(t, "p")
 			s.Client = rapid.SampledFrom([]int{1, 1, 2, 0, 0}).Draw(t, "client")
@@ -140,12 +156,17 @@ type provInst struct {
 	cfg      *op.Config
 	provider *op.Provider
 	ag       *vkit.Agent
-	disc     string         // discovery document right after construction
-	routes   map[string]int // status of a GET on every path of the probe universe right after construction
+	spec     issSpec
+	cors     *cors.Options
+	iss      map[string]string // issuer per probe request right after construction
+	other    map[string]string // further behaviour right after construction (see extraBehaviour)
+	disc     string            // discovery document right after construction
+	routes   map[string]int    // status of a GET on every path of the probe universe right after construction
 	tok      *tokSet
 }
 
 type rpInst struct {
+	fp     string // what the instance tells about itself right after construction
 	r      rp.RelyingParty
 	p      *provInst
 	client int
@@ -153,12 +174,14 @@ type rpInst struct {
 }
 
 type rsInst struct {
+	fp     string
 	r      rs.ResourceServer
 	p      *provInst
 	client int
 }
 
 type teInst struct {
+	fp     string
 	t      tokenexchange.TokenExchanger
 	p      *provInst
 	client int
@@ -172,12 +195,16 @@ type orderEnv struct {
 	rps      []*rpInst
 	rss      []*rsInst
 	tes      []*teInst
-	scopes   [][]string // scope slices handed to NewRelyingPartyOIDC
-	follow   []bool     // per client (0 = default): did Discover through a redirect succeed at the start of the case
+	issuers  []*issInst          // issuer functions built on their own (references first)
+	refs     map[string]*issInst // the issuer functions built with default options before anything else, by issSpec.refKey
+	hdrLists []ownedList         // header lists handed to op.WithIssuerFromCustomHeaders
+	scopes   [][]string          // scope slices handed to NewRelyingPartyOIDC
+	follow   []bool              // per client (0 = default): did Discover through a redirect succeed at the start of the case
 	start    snapshot
 	prev     snapshot
 	res      *vkit.Result
 	conseq   map[string]bool
+	lastFn   *issInst // the issuer function the current step built
 	// sticky: names that changed at some step of this case (a later step may put the old value back, but instances built
 	// or used in between keep what they saw)
 	everChanged map[string]bool
@@ -210,6 +237,14 @@ func (e *orderEnv) take() snapshot {
 	for i, sc := range e.scopes {
 		s[fmt.Sprintf("scopes-of-rp-%d", i)] = sliceState(sc)
 	}
+	for _, p := range e.provs {
+		if p.cors != nil {
+			s[fmt.Sprintf("cors.Options-of-provider-%d", p.idx)] = fmt.Sprintf("%+v", *p.cors)
+		}
+	}
+	for _, l := range e.hdrLists {
+		s[l.name] = sliceState(l.l)
+	}
 	return s
 }
 
@@ -238,6 +273,8 @@ func mkEP(iss string, e vkit.EndpointSpec) *op.Endpoint {
 func (e *orderEnv) newProvider(s Step) (*provInst, error) {
 	idx := len(e.provs)
 	p := &provInst{idx: idx, issuer: fmt.Sprintf("https://op%d.example.com", idx), router: s.Router, ep: s.EP, cfg: newConfig()}
+	p.spec = specOf(s, p.issuer)
+	p.spec.Path, p.spec.Insecure = "", false // the provider is mounted at the root of its host
 	if p.router != "legacy" {
 		p.router = "provider"
 	}
@@ -278,8 +315,32 @@ func (e *orderEnv) newProvider(s Step) (*provInst, error) {
 	cfgName := fmt.Sprintf("op.Config-of-provider-%d", idx)
 	e.prev[cfgName] = fmt.Sprintf("%+v", *p.cfg)
 	e.start[cfgName] = e.prev[cfgName]
+	switch s.CORS {
+	case 1:
+		p.cors = corsOptions()
+		corsName := fmt.Sprintf("cors.Options-of-provider-%d", idx)
+		e.prev[corsName] = fmt.Sprintf("%+v", *p.cors)
+		e.start[corsName] = e.prev[corsName]
+		opts = append(opts, op.WithCORSOptions(p.cors))
+	case 2:
+		opts = append(opts, op.WithCORSOptions(nil))
+	}
+	hdrs := slices.Clone(p.spec.Hdrs)
+	if p.spec.Iss == "fwdc" {
+		e.ownedHeaders(fmt.Sprintf("provider-%d", idx), hdrs)
+	}
+	storage := wrapStorage(p.store.Shaped(vkit.FullCaps))
 	var err error
-	p.provider, err = op.NewProvider(p.cfg, wrapStorage(p.store.Shaped(vkit.FullCaps)), op.StaticIssuer(p.issuer), opts...)
+	switch {
+	case s.Ctor == 1 && p.spec.Iss == "":
+		p.provider, err = op.NewOpenIDProvider(p.issuer, p.cfg, storage, opts...)
+	case s.Ctor == 1 && p.spec.Iss == "host":
+		p.provider, err = op.NewDynamicOpenIDProvider("", p.cfg, storage, opts...)
+	case s.Ctor == 1 && p.spec.Iss == "fwd":
+		p.provider, err = op.NewForwardedOpenIDProvider("", p.cfg, storage, opts...)
+	default:
+		p.provider, err = op.NewProvider(p.cfg, storage, issuerFunc(p.spec, hdrs), opts...)
+	}
 	if err != nil {
 		return nil, err
 	}
@@ -298,6 +359,7 @@ func (e *orderEnv) newProvider(s Step) (*provInst, error) {
 	e.rt.routes[host] = route{h, p.store}
 	e.provs = append(e.provs, p)
 	p.disc, p.routes = e.behaviour(p, true)
+	p.iss, p.other = e.extraBehaviour(p, true)
 	return p, nil
 }
 
@@ -377,6 +439,11 @@ func (e *orderEnv) judge(si int, s Step, created *provInst, last bool) {
 			} else {
 				add("C20:op.DefaultEndpoints-mutated-by:"+s.K, line)
 			}
+		case strings.HasPrefix(name, "issuer-headers-of-"):
+			// the list the caller handed to op.WithIssuerFromCustomHeaders(list...) is the caller's
+			add(fpCallerHeaders, line)
+		case strings.HasPrefix(name, "cors.Options-of-"):
+			add("C20:state-changed:caller-cors.Options:"+s.K, line)
 		case strings.Contains(name, ".CheckRedirect"): // nil-ness or identity of the redirect policy
 			switch s.K {
 			case "endsession":
@@ -401,8 +468,21 @@ func (e *orderEnv) judge(si int, s Step, created *provInst, last bool) {
 		if p == created {
 			continue
 		}
-		disc, routes := e.behaviour(p, last || s.K == "prov")
+		full := last || s.K == "prov"
+		disc, routes := e.behaviour(p, full)
+		iss, other := e.extraBehaviour(p, full)
+		if d := vecDiff(p.iss, iss); d != "" {
+			p.iss = iss
+			e.res.Label("behaviour-changed:earlier-provider-issuer")
+			add("C20:issuer-derivation-changed-by:"+s.K, fmt.Sprintf("provider %d (built with %s) derives its issuer differently than right after its construction: %s", p.idx, p.spec, d))
+		}
 		var moved []string
+		if full {
+			if d := mapDiff(p.other, other); d != "" {
+				moved = append(moved, fmt.Sprintf("provider %d answers differently: %s", p.idx, d))
+			}
+			p.other = other
+		}
 		if disc != p.disc {
 			moved = append(moved, fmt.Sprintf("discovery document of provider %d (%s router, own options %v) changed: %s", p.idx, p.router, epNames(p.ep), docDiff(p.disc, disc)))
 		}
@@ -430,6 +510,51 @@ func (e *orderEnv) judge(si int, s Step, created *provInst, last bool) {
 			continue
 		}
 		add("C20:provider-behaviour-changed-by:"+s.K, strings.Join(moved, "; "))
+	}
+
+	// issuer functions built on their own keep deriving the issuer as they did
+	for _, i := range e.issuers {
+		if i == e.lastFn {
+			continue
+		}
+		now := i.behaviour()
+		if d := vecDiff(i.vec, now); d != "" {
+			i.vec = now
+			e.res.Label("behaviour-changed:earlier-issuer-function")
+			add("C20:issuer-derivation-changed-by:"+s.K, fmt.Sprintf("issuer function %s (%s) derives the issuer differently than right after its construction: %s", i.name, i.spec, d))
+		}
+	}
+	// an issuer function / provider built just now derives the issuer as its own options say, whatever was built before
+	if i := e.lastFn; i != nil {
+		if m := e.bornCheck(i.spec, i.vec, i.host); m != "" {
+			e.res.Label("behaviour-changed:new-issuer-function")
+			add("C20:issuer-derivation-not-by-own-options:"+s.K, fmt.Sprintf("issuer function %s, built after %d other issuer functions and %d providers: %s", i.spec, len(e.issuers)-1, len(e.provs), m))
+		}
+	}
+	if created != nil {
+		if m := e.bornCheck(created.spec, created.iss, hostOf(created.issuer)); m != "" {
+			e.res.Label("behaviour-changed:new-provider-issuer")
+			add("C20:issuer-derivation-not-by-own-options:"+s.K, fmt.Sprintf("provider %d built with %s, after %d issuer functions and %d providers: %s", created.idx, created.spec, len(e.issuers), created.idx, m))
+		}
+	}
+	// client-side instances tell the same about themselves as right after their construction
+	for k, r := range e.rps {
+		if now := rpBehaviour(r.r); now != r.fp {
+			add("C20:client-instance-changed-by:"+s.K, fmt.Sprintf("relying party %d: %s, was %s", k, now, r.fp))
+			r.fp = now
+		}
+	}
+	for k, r := range e.rss {
+		if now := rsBehaviour(r.r); now != r.fp {
+			add("C20:client-instance-changed-by:"+s.K, fmt.Sprintf("resource server %d: %s, was %s", k, now, r.fp))
+			r.fp = now
+		}
+	}
+	for k, x := range e.tes {
+		if now := teBehaviour(x.t); now != x.fp {
+			add("C20:client-instance-changed-by:"+s.K, fmt.Sprintf("token exchanger %d: %s, was %s", k, now, x.fp))
+			x.fp = now
+		}
 	}
 
 	// a provider built just now: endpoints it did not customise itself are the defaults, advertised and routed
@@ -530,7 +655,9 @@ func epNames(ep map[string]vkit.EndpointSpec) []string {
 func describeStep(s Step) string {
 	switch s.K {
 	case "prov":
-		return fmt.Sprintf("NewProvider %s router, endpoint options %v bulk=%v", s.Router, epNames(s.EP), s.Bulk)
+		return fmt.Sprintf("NewProvider %s router, endpoint options %v bulk=%v, issuer %s, ctor=%d cors=%d", s.Router, epNames(s.EP), s.Bulk, specOf(s, "static"), s.Ctor, s.CORS)
+	case "issuer_fn":
+		return "issuer function " + specOf(s, "").String()
 	case "rp_oidc", "rp_oauth", "rs", "te", "keyset", "discover":
 		return fmt.Sprintf("construct %s on provider %d with %s opt=%d", s.K, s.P, clientName(s.Client), s.Opt)
 	}
@@ -569,7 +696,9 @@ func jsonOf(statusAndBody string) map[string]any {
 
 // ---- steps -------------------------------------------------------------------------------------------
 
-func (e *orderEnv) prov(i int) *provInst { return e.provs[((i%len(e.provs))+len(e.provs))%len(e.provs)] }
+func (e *orderEnv) prov(i int) *provInst {
+	return e.provs[((i%len(e.provs))+len(e.provs))%len(e.provs)]
+}
 
 func (e *orderEnv) newRP(s Step) (*rpInst, error) {
 	p := e.prov(s.P)
@@ -587,7 +716,7 @@ func (e *orderEnv) newRP(s Step) (*rpInst, error) {
 		if err != nil {
 			return nil, err
 		}
-		ri := &rpInst{r: r, p: p, client: s.Client, oauth: true}
+		ri := &rpInst{r: r, p: p, client: s.Client, oauth: true, fp: rpBehaviour(r)}
 		e.rps = append(e.rps, ri)
 		return ri, nil
 	}
@@ -606,7 +735,7 @@ func (e *orderEnv) newRP(s Step) (*rpInst, error) {
 	if err != nil {
 		return nil, err
 	}
-	ri := &rpInst{r: r, p: p, client: s.Client}
+	ri := &rpInst{r: r, p: p, client: s.Client, fp: rpBehaviour(r)}
 	e.rps = append(e.rps, ri)
 	return ri, nil
 }
@@ -630,7 +759,7 @@ func (e *orderEnv) newRS(s Step) (*rsInst, error) {
 	if err != nil {
 		return nil, err
 	}
-	ri := &rsInst{r: r, p: p, client: s.Client}
+	ri := &rsInst{r: r, p: p, client: s.Client, fp: rsBehaviour(r)}
 	e.rss = append(e.rss, ri)
 	return ri, nil
 }
@@ -654,7 +783,7 @@ func (e *orderEnv) newTE(s Step) (*teInst, error) {
 	if err != nil {
 		return nil, err
 	}
-	ti := &teInst{t: t, p: p, client: s.Client}
+	ti := &teInst{t: t, p: p, client: s.Client, fp: teBehaviour(t)}
 	if s.Opt&2 != 2 {
 		e.tes = append(e.tes, ti)
 	}
@@ -678,7 +807,15 @@ func (e *orderEnv) anRP(s Step) (*rpInst, error) {
 // doStep executes one step; it returns an error text when the step did not do what it does in a fresh process.
 func (e *orderEnv) doStep(s Step) (created *provInst, problem string, usedClient int) {
 	usedClient = -1
+	e.lastFn = nil
 	switch s.K {
+	case "issuer_fn":
+		i, err := e.newIssuerFn(fmt.Sprintf("function-%d", len(e.issuers)), specOf(s, ""))
+		if err != nil {
+			return nil, "issuer function: " + err.Error(), -1
+		}
+		e.lastFn = i
+		return nil, "", -1
 	case "prov":
 		p, err := e.newProvider(s)
 		if err != nil {
@@ -898,6 +1035,18 @@ func runOrder(c Case) *vkit.Result {
 	}
 	e.start = e.take()
 	e.prev = e.start
+	// the references: issuer functions with default options, built before anything else
+	e.refs = map[string]*issInst{}
+	for _, sp := range []issSpec{{Iss: "fwd"}, {Iss: "host"}} {
+		i, err := e.newIssuerFn("reference-"+sp.Iss, sp)
+		if err != nil {
+			res.Fail("C20:setup", "reference issuer function %s: %v", sp, err)
+			return res
+		}
+		e.refs[sp.refKey()] = i
+	}
+	e.lastFn = nil
+	res.Label(fmt.Sprintf("reference:fwd-honours-Forwarded=%v", strings.Contains(e.refs[issSpec{Iss: "fwd"}.refKey()].vec["forwarded"], "fwd.example.org")))
 	// provider 0: built with defaults before anything else; the client-side instances need something to talk to
 	p0, err := e.newProvider(Step{K: "prov", Router: "provider"})
 	if err != nil {
@@ -914,6 +1063,7 @@ func runOrder(c Case) *vkit.Result {
 	e.judge(-1, Step{K: "prov", Router: "provider"}, p0, false)
 
 	instances, calls, customProv := 1, 0, 0
+	issKinds := map[string]bool{}
 	var kinds []string
 	for si, s := range c.Steps {
 		known := false
@@ -927,10 +1077,18 @@ func runOrder(c Case) *vkit.Result {
 		kinds = append(kinds, stepKey(s))
 		created, problem, used := e.doStep(s)
 		switch s.K {
-		case "prov", "rp_oidc", "rp_oauth", "rs", "te", "keyset":
+		case "prov", "rp_oidc", "rp_oauth", "rs", "te", "keyset", "issuer_fn":
 			instances++
 			if len(s.EP) > 0 {
 				customProv++
+			}
+			if s.K == "prov" || s.K == "issuer_fn" {
+				sp := specOf(s, "static")
+				res.Label("issuer-strategy:" + map[string]string{"": "static", "host": "host", "fwd": "forwarded", "fwdc": "forwarded-custom-headers"}[sp.Iss])
+				issKinds[sp.Iss] = true
+			}
+			if s.K == "prov" {
+				res.Label(fmt.Sprintf("provider-cors:%d", s.CORS), fmt.Sprintf("provider-ctor:%d", s.Ctor))
 			}
 		default:
 			calls++
@@ -959,6 +1117,9 @@ func runOrder(c Case) *vkit.Result {
 	sort.Strings(cs)
 	res.NonTrivial = instances >= 2 || calls >= 1
 	res.Key = "order|" + strings.Join(kinds, ">")
+	if issKinds["fwd"] && issKinds["fwdc"] {
+		res.Label("has:forwarded-default-and-custom-headers")
+	}
 	if customProv > 0 {
 		res.Label("has:custom-endpoint-provider")
 	} else {
@@ -971,7 +1132,9 @@ func runOrder(c Case) *vkit.Result {
 func stepKey(s Step) string {
 	switch s.K {
 	case "prov":
-		return fmt.Sprintf("prov(%s,%v,%v)", s.Router, epNames(s.EP), s.Bulk)
+		return fmt.Sprintf("prov(%s,%v,%v,%s%v,%d,%d)", s.Router, epNames(s.EP), s.Bulk, s.Iss, s.Hdrs, s.Ctor, s.CORS)
+	case "issuer_fn":
+		return fmt.Sprintf("issuer_fn(%s%v,%s,%v)", s.Iss, s.Hdrs, s.Path, s.Insecure)
 	case "rp_oidc", "rp_oauth", "rs", "te", "keyset", "discover":
 		return fmt.Sprintf("%s(p%d,c%d,o%d)", s.K, s.P, s.Client, s.Opt)
 	}
